@@ -369,8 +369,11 @@ class Ctx:
             "coverage": cov, "assumptions": self.assumptions, "wall_s": round(wall, 2),
             "violations": len(new_fail) + (1 if (self.broken and not new_fail) else 0),
         }
-        os.makedirs(os.path.join(VERIF, "evidence"), exist_ok=True)
-        json.dump(ev, open(os.path.join(VERIF, "evidence", f"{self.pid}.json"), "w"), indent=1, default=str)
+        # dry runs against seeded changes (tools_mutants.py) write their evidence elsewhere: the committed evidence is always
+        # the record of a run against the unchanged tree
+        evdir = os.environ.get("VERIF_EVIDENCE_DIR") or os.path.join(VERIF, "evidence")
+        os.makedirs(evdir, exist_ok=True)
+        json.dump(ev, open(os.path.join(evdir, f"{self.pid}.json"), "w"), indent=1, default=str)
         for ln in lines:
             print(ln, flush=True)
         print(f"[{self.pid}] obligations {len(self.discharged)}/{len(self.obligations)} discharged; "
